@@ -192,6 +192,11 @@ def search(ctx):
                 # S-matrix: Mie (Fortran) vs pure-Python series of the lens theories vs the Lean series
                 m, x = rand_mx(rng, min(xmax, 40))
                 m = complex(m.real, 0.0) if i % 8 == 0 else m
+                if i % 16 == 8:
+                    # optically thinner than the medium (an air bubble in water, m = 0.75) and LARGE: orders above |m x| still carry
+                    # weight there, which is where an unstable recurrence for the interior argument shows
+                    m = complex([0.752, 0.9, 0.67, 0.8][(i // 16) % 4], 0.0)
+                    x = float([63.0, 101.0, 152.0, 40.0, 300.0][(i // 16) % (5 if ctx.tier != "quick" else 3)])
                 if i % 8 == 4 and dense_pool(rng):
                     # large dense spheres: the region where the Lentz workaround of the starting value executes
                     pool = dense_pool(rng)
